@@ -14,14 +14,17 @@
 #include <boost/multi/array.hpp>
 // potrf.hpp and geqrf.hpp cannot be included in one translation unit at the pinned commit (geqrf.hpp:36 `using blas::filling;`
 // inside namespace lapack conflicts with lapack::filling of lapack/filling.hpp), so the harness is built twice:
-//   -DLAPACK_PART=1  potrf + gesvd          -DLAPACK_PART=2  geqrf + gesvd
+//   -DLAPACK_PART=1  potrf + gesvd          -DLAPACK_PART=2  geqrf + gesvd          -DLAPACK_PART=3  syev
+// (syev.hpp has the same `using blas::filling;`, so it cannot share a translation unit with potrf.hpp either)
 #ifndef LAPACK_PART
 #define LAPACK_PART 1
 #endif
 #if LAPACK_PART == 1
 #include <boost/multi/adaptors/lapack/potrf.hpp>
-#else
+#elif LAPACK_PART == 2
 #include <boost/multi/adaptors/lapack/geqrf.hpp>
+#else
+#include <boost/multi/adaptors/lapack/syev.hpp>
 #endif
 #include <boost/multi/adaptors/lapack/gesvd.hpp>
 
@@ -68,11 +71,17 @@ extern "C" void dpotrf_(char const& uplo, int const& n, double* a, int const& ld
 	if(g_depth == 0) g_calls.push_back(std::string("potrf ") + uplo + " " + std::to_string(n) + " " + ptr_str(a) + " " + std::to_string(lda));
 	Depth d; real(uplo, n, a, lda, info);
 }
-#else
+#elif LAPACK_PART == 2
 extern "C" void dgeqrf_(int const& m, int const& n, double* a, int const& lda, double* tau, double* work, int const& lwork, int const& info) {
 	static auto real = real_fn<void (*)(int const&, int const&, double*, int const&, double*, double*, int const&, int const&)>("dgeqrf_");
 	if(g_depth == 0) g_calls.push_back("geqrf " + std::to_string(m) + " " + std::to_string(n) + " " + ptr_str(a) + " " + std::to_string(lda) + " " + ptr_str(tau) + (lwork == -1 ? " query" : " compute"));
 	Depth d; real(m, n, a, lda, tau, work, lwork, info);
+}
+#else
+extern "C" void dsyev_(char const& jobz, char const& uplo, int const& n, double* a, int const& lda, double* w, double* work, int const& lwork, int& info) {
+	static auto real = real_fn<void (*)(char const&, char const&, int const&, double*, int const&, double*, double*, int const&, int&)>("dsyev_");
+	if(g_depth == 0) g_calls.push_back(std::string("syev ") + jobz + " " + uplo + " " + std::to_string(n) + " " + ptr_str(a) + " " + std::to_string(lda) + " " + ptr_str(w) + " " + ptr_str(work) + " " + std::to_string(lwork));
+	Depth d; real(jobz, uplo, n, a, lda, w, work, lwork, info);
 }
 #endif
 extern "C" void dgesvd_(char const& jobu, char const& jobvt, int const& m, int const& n, double* a, int const& lda, double* s, double* u, int const& ldu, double* vt, int const& ldvt, double* work, int const& lwork, int& info) {
@@ -251,10 +260,66 @@ static void do_gesvd(int ra, int ru, int rs, int rv, std::uint64_t dseed) {
 	std::fprintf(fans, "num %s | order %s | frame %s\n", num_ok ? "ok" : "FAIL", ordered ? "ok" : "FAIL", frame == 0 ? "ok" : "FAIL");
 }
 
+// ------------------------------------------------------------------------------------------------ syev
+// x syev <reg> <wreg> <workreg> <U|L> <dataseed> <api>
+//   api 0: syev(uplo, a, w, work)   1: syev(uplo, a, w)   2: w = syev(uplo, a)   3: vecs = syev(uplo, const a, w)   4: {vecs, vals} = syev(uplo, const a)
+static void do_syev(int reg, int wreg, int workreg, bool upper, std::uint64_t dseed, int api) {
+#if LAPACK_PART == 3
+	auto&& a = mk(mat(reg)); auto&& w = mk(vec(wreg)); auto&& work = mk(vec(workreg));
+	auto const& ca = a;
+	long n = static_cast<long>(a.size());
+	Rng rng(dseed);
+	std::vector<std::vector<double>> S(static_cast<std::size_t>(n), std::vector<double>(static_cast<std::size_t>(n)));
+	for(long i = 0; i < n; ++i) for(long j = i; j < n; ++j) { double x = static_cast<double>(rng.range(-5, 5)); S[static_cast<std::size_t>(i)][static_cast<std::size_t>(j)] = x; S[static_cast<std::size_t>(j)][static_cast<std::size_t>(i)] = x; }
+	fill_guard();
+	double const nan = std::numeric_limits<double>::quiet_NaN();
+	for(long i = 0; i < n; ++i) for(long j = 0; j < n; ++j) { bool sel = upper ? (i <= j) : (j <= i); a[i][j] = sel ? S[static_cast<std::size_t>(i)][static_cast<std::size_t>(j)] : nan; }  // the other triangle must not be read
+	std::vector<double> before = g_buf;
+	auto uplo = upper ? multi::blas::filling::upper : multi::blas::filling::lower;
+	// eigenvectors (V[k] = k-th vector) and eigenvalues as the overload returns them
+	std::vector<std::vector<double>> V(static_cast<std::size_t>(n), std::vector<double>(static_cast<std::size_t>(n)));
+	std::vector<double> ev(static_cast<std::size_t>(n));
+	bool rows = ((~a).stride() == 1);  // in place: LAPACK's columns are the rows of a view with unit inner stride, the columns otherwise
+	std::vector<char> allowed(NBUF, 0);
+	g_calls.clear();
+	std::string ret = "ret none";
+	auto ret_of = [&](auto&& r) {
+		std::vector<long> as;
+		for(auto i = r.extension().first(); i < r.extension().last(); ++i) for(auto j = r[i].extension().first(); j < r[i].extension().last(); ++j) as.push_back(off_of(&r[i][j]));
+		auto e0 = r.extension(); auto e1 = (r.size() > 0) ? r[e0.first()].extension() : decltype(e0){};
+		return "ret " + std::to_string(e0.first()) + ":" + std::to_string(e0.last()) + " " + std::to_string(e1.first()) + ":" + std::to_string(e1.last()) + " | " + std::to_string(as.size()) + " : " + join(as);
+	};
+	auto take_inplace = [&] { for(long k = 0; k < n; ++k) for(long l = 0; l < n; ++l) V[static_cast<std::size_t>(k)][static_cast<std::size_t>(l)] = rows ? a[k][l] : a[l][k]; };
+	switch(api) {
+		case 0: { auto&& r = multi::lapack::syev(uplo, a, w, work); ret = ret_of(r); take_inplace(); for(long k = 0; k < n; ++k) ev[static_cast<std::size_t>(k)] = w[k]; mark(a, allowed); mark(w, allowed); mark(work, allowed); break; }
+		case 1: { auto&& r = multi::lapack::syev(uplo, a, w); ret = ret_of(r); take_inplace(); for(long k = 0; k < n; ++k) ev[static_cast<std::size_t>(k)] = w[k]; mark(a, allowed); mark(w, allowed); break; }
+		case 2: { auto vals = multi::lapack::syev(uplo, a); take_inplace(); for(long k = 0; k < n; ++k) ev[static_cast<std::size_t>(k)] = vals[k]; mark(a, allowed); break; }
+		case 3: { auto vecs = multi::lapack::syev(uplo, ca, w); for(long k = 0; k < n; ++k) for(long l = 0; l < n; ++l) V[static_cast<std::size_t>(k)][static_cast<std::size_t>(l)] = vecs[k][l]; for(long k = 0; k < n; ++k) ev[static_cast<std::size_t>(k)] = w[k]; mark(w, allowed); break; }
+		default: { auto sys = multi::lapack::syev(uplo, ca); for(long k = 0; k < n; ++k) for(long l = 0; l < n; ++l) V[static_cast<std::size_t>(k)][static_cast<std::size_t>(l)] = sys.eigenvectors[k][l]; for(long k = 0; k < n; ++k) ev[static_cast<std::size_t>(k)] = sys.eigenvalues[k]; break; }
+	}
+	flush_calls();
+	std::fprintf(fans, "%s\n", ret.c_str());
+	// S v_k = w_k v_k, V orthonormal, w ascending
+	double maxerr = 0, scale = 1, orth = 0;
+	for(long i = 0; i < n; ++i) for(long j = 0; j < n; ++j) scale = std::max(scale, std::abs(S[static_cast<std::size_t>(i)][static_cast<std::size_t>(j)]));
+	for(long k = 0; k < n; ++k) for(long i = 0; i < n; ++i) { double acc = 0; for(long j = 0; j < n; ++j) acc += S[static_cast<std::size_t>(i)][static_cast<std::size_t>(j)] * V[static_cast<std::size_t>(k)][static_cast<std::size_t>(j)];
+		double e = std::abs(acc - ev[static_cast<std::size_t>(k)] * V[static_cast<std::size_t>(k)][static_cast<std::size_t>(i)]); if(!(e <= 1e300)) e = 1e300; maxerr = std::max(maxerr, e); }
+	for(long k = 0; k < n; ++k) for(long l = 0; l < n; ++l) { double acc = 0; for(long j = 0; j < n; ++j) acc += V[static_cast<std::size_t>(k)][static_cast<std::size_t>(j)] * V[static_cast<std::size_t>(l)][static_cast<std::size_t>(j)]; double e = std::abs(acc - (k == l ? 1.0 : 0.0)); if(!(e <= 1e300)) e = 1e300; orth = std::max(orth, e); }
+	bool ordered = true; for(long k = 0; k + 1 < n; ++k) if(!(ev[static_cast<std::size_t>(k)] <= ev[static_cast<std::size_t>(k + 1)])) ordered = false;
+	bool num_ok = maxerr <= 1e-12 * scale * static_cast<double>(n) * 16 && orth <= 1e-12 * static_cast<double>(n) * 16;
+	long frame = frame_changes(before, allowed);
+	if(!num_ok) std::fprintf(stderr, "harness: syev num FAIL maxerr=%g orth=%g api=%d rows=%d\n", maxerr, orth, api, rows ? 1 : 0);
+	std::fprintf(fans, "num %s | order %s | frame %s\n", num_ok ? "ok" : "FAIL", ordered ? "ok" : "FAIL", frame == 0 ? "ok" : "FAIL");
+#else
+	(void)reg; (void)wreg; (void)workreg; (void)upper; (void)dseed; (void)api; std::fprintf(stderr, "harness: built without syev\n"); std::abort();
+#endif
+}
+
 static std::vector<std::string> words(std::string const& line) { std::istringstream is(line); std::vector<std::string> w; std::string t; while(is >> t) w.push_back(t); return w; }
 static void do_query(std::vector<std::string> const& w) {
 	if(w[1] == "potrf") do_potrf(std::stoi(w[2]), w[3] == "U", std::stoull(w[4]), std::stol(w[5]));
 	else if(w[1] == "geqrf") do_geqrf(std::stoi(w[2]), std::stoi(w[3]), std::stoull(w[4]));
+	else if(w[1] == "syev") do_syev(std::stoi(w[2]), std::stoi(w[3]), std::stoi(w[4]), w[5] == "U", std::stoull(w[6]), std::stoi(w[7]));
 	else if(w[1] == "gesvd") do_gesvd(std::stoi(w[2]), std::stoi(w[3]), std::stoi(w[4]), std::stoi(w[5]), std::stoull(w[6]));
 	else { std::fprintf(stderr, "harness: bad query\n"); std::abort(); }
 }
@@ -294,9 +359,17 @@ static long gen_vector(Rng& rng, int reg, long base, long n) {
 static void gen_program(Rng& rng, long pnum, long nprog, std::uint64_t seed) {
 	std::fprintf(fprog, "prog %ld %llu\n", pnum, static_cast<unsigned long long>(seed)); std::fprintf(fans, "prog %ld %llu\n", pnum, static_cast<unsigned long long>(seed));
 	long base = 40 + rng.range(0, 7);
-	int c = LAPACK_PART == 1 ? rng.pick({70, 0, 30}) : rng.pick({0, 65, 35});
+	int c = LAPACK_PART == 1 ? rng.pick({70, 0, 30}) : LAPACK_PART == 2 ? rng.pick({0, 65, 35}) : 3;
 	std::string line;
-	if(c == 0) {
+	if(c == 3) {
+		long n = rng.range(1, 8);
+		bool colmajor = rng.coin(50);
+		base += gen_matrix(rng, 1, base, n, n, colmajor, true) + 8;
+		base += gen_vector(rng, 3, base, n) + 8;
+		base += gen_vector(rng, 5, base, std::max(1L, 3 * n - 1) + (rng.coin(30) ? rng.range(1, 4) : 0)) + 8;
+		int api = rng.pick({35, 25, 15, 15, 10});
+		line = "x syev 1 3 5 " + std::string(rng.coin(50) ? "U" : "L") + " " + std::to_string(rng.next() % 1000000) + " " + std::to_string(api);
+	} else if(c == 0) {
 		long n = rng.range(1, 8);
 		bool colmajor = rng.coin(50);
 		base += gen_matrix(rng, 1, base, n, n, colmajor, true) + 8;
